@@ -4,6 +4,7 @@ import (
 	"fmt"
 	"go/token"
 	"go/types"
+	"strings"
 
 	"golang.org/x/tools/go/ssa"
 
@@ -125,7 +126,7 @@ func runC09(p *core.Prog, r *core.Report) {
 			src := core.Trace(ret.Results[0], 0)
 			marsh := false
 			for c := range src.Calls {
-				if c.Name() == "Marshal" || c.Name() == "MarshalVT" {
+				if strings.HasPrefix(c.Name(), "Marshal") {
 					marsh = true
 				}
 			}
@@ -136,6 +137,27 @@ func runC09(p *core.Prog, r *core.Report) {
 		r.Check(ok, "C09.R1", "ReadOps/kvOps", "ReadOps serialises exactly the store's operation list (kvOps)", "returned bytes do not derive from a Marshal of kvOps", p.Pos(fn.Pos()))
 		// ReadOps does not modify the list
 		r.Check(len(core.FieldWritesIn(fn, kvOps())) == 0, "C09.R1", "ReadOps/pure", "ReadOps does not modify the operation list", "writes kvOps", p.Pos(fn.Pos()))
+		// ... nor anything else of the store, and what it returns is not a view of store-owned memory: the caller parks the
+		// bytes in the block's output buffer until the block is final, several blocks later on a reversible segment
+		wr := ""
+		core.Instrs(fn, func(x ssa.Instruction) {
+			if st, ok := x.(*ssa.Store); ok {
+				if fa, ok := st.Addr.(*ssa.FieldAddr); ok && derivesFromParam(fa.X, fn.Params[0]) {
+					wr = core.FieldOfAddr(fa).Name()
+				}
+			}
+			if c, ok := x.(*ssa.Call); ok {
+				// a buffer handed to an append-style marshaller must not be store-owned
+				for _, a := range c.Call.Args {
+					if sl, ok := a.(*ssa.Slice); ok {
+						if f, base := core.LoadedField(sl.X); f != nil && derivesFromParam(base, fn.Params[0]) {
+							wr = f.Name()
+						}
+					}
+				}
+			}
+		})
+		r.Check(wr == "", "C09.R1", "ReadOps/fresh-bytes", "ReadOps keeps no state: it writes no field of the store and serialises into a fresh buffer (the bytes stay valid while later blocks are executed)", "ReadOps writes or re-uses the store's field "+wr, p.Pos(fn.Pos()))
 	})
 
 	r.Guard("C09.R1", "wrapDeltasAndOps", "flush before log read", func() {
